@@ -5,7 +5,7 @@
 //! the seed picks the values. Executed under Miri, one interpreter process per shape
 //! (Miri stops at the first undefined behaviour it sees).
 //!
-//!   dangle SHAPE CRASH SEED      SHAPE 0..10, CRASH 0 = none (control), 1 = drop, 2 = move out of Box
+//!   dangle SHAPE CRASH SEED      SHAPE 0..10, CRASH 0 = none (control), 1 = drop, 2 = move out of Box, 3 = none, after refused link operations (control)
 #![forbid(unsafe_code)]
 
 use rrtk::devices::wrappers::*;
@@ -110,6 +110,32 @@ macro_rules! shape {
                 read_outer(&outer, true, $v);
                 outer.borrow_mut().disconnect();
                 drop(dev);
+            }
+            3 => {
+                // control: link operations attempted while somebody is reading the outer terminal are
+                // refused by its RefCell (a caught panic); afterwards the program unlinks in an orderly
+                // way from the device's side, the device goes away, and the survivor is used
+                let third = Terminal::<E>::new();
+                {
+                    let dev = $make;
+                    let $d = &dev;
+                    let t = $term;
+                    seed_state(t, $v);
+                    connect(t, &outer);
+                    {
+                        let _reader = outer.borrow();
+                        let r1 = std::panic::catch_unwind(std::panic::AssertUnwindSafe(|| t.borrow_mut().disconnect()));
+                        let r2 = std::panic::catch_unwind(std::panic::AssertUnwindSafe(|| connect(t, &third)));
+                        println!("REFUSED disconnect={} connect={}", r1.is_err(), r2.is_err());
+                    }
+                    t.borrow_mut().disconnect();
+                    third.borrow_mut().disconnect();
+                }
+                println!("GONE orderly");
+                read_outer(&outer, false, $v);
+                read_outer(&third, false, $v);
+                connect(&outer, &third);
+                outer.borrow_mut().disconnect();
             }
             1 => {
                 // crash_drop: the device's scope ends while the outer terminal is still linked to it
